@@ -61,6 +61,7 @@ class Wiener:
 
 class PreSetWiener(Wiener):
     def __init__(self, noise, tlist, n_sc_ops, heterodyne, is_measurement):
+        noise = np.asarray(noise, dtype=float)
         if heterodyne:
             if noise.shape != (n_sc_ops/2, 2, len(tlist)-1):
                 raise ValueError(
